@@ -107,7 +107,7 @@ def traced_run(reactions, n_jobs=8, batch_size=None, threshold=0, stats=True, ba
     for bt in T.batches:
         batches.append({k: v for k, v in bt.items()})
     return {"inputs": reactions, "out": out, "stats": st, "batches": batches, "error": err, "wall": time.time() - t0,
-            "threshold": threshold, "batch_size": batch_size, "n_jobs": n_jobs}
+            "threshold": threshold, "batch_size": batch_size, "n_jobs": n_jobs, "merges": list(T.merges)}
 
 
 def mix_inputs(ctx_seed, tier):
@@ -241,7 +241,34 @@ def compare_trace(ctx, tr, layer="Pipeline"):
         if ans is not None:
             n += len(ans)
             monitor_laws(ctx, bt, ans)
+    compare_merges(ctx, tr, layer)
     return n
+
+
+def compare_merges(ctx, tr, layer="Pipeline"):
+    """every real `merge_stats` call of the run against the Lean `mergeStats` (ordered key/value pairs), and the caller's
+    final dictionary against the fold over the batch dictionaries"""
+    merges = [m for m in tr.get("merges") or [] if m["before"] is not None and m["new"] is not None]
+    if not merges:
+        return
+    as_pairs = lambda items: [[k, int(v)] for k, v in items]
+    try:
+        ops = [{"op": "mergeStats", "s": as_pairs(m["before"]), "n": as_pairs(m["new"])} for m in merges]
+        ops.append({"op": "mergeStats", "fold": [as_pairs(m["new"]) for m in merges]})
+    except (TypeError, ValueError) as e:
+        ctx.corr_break(layer + ":merge_stats", {"merges": len(merges)}, "integer counters", "non-integer statistics value: %s" % e)
+        return
+    answers = ctx.driver(ops)
+    for m, a in zip(merges, answers):
+        ctx.count("merge_stats-call-compared")
+        if a.get("merged") != as_pairs(m["after"]):
+            ctx.corr_break(layer + ":merge_stats", {"stats": m["before"], "new_stats": m["new"]}, a.get("merged", a), as_pairs(m["after"]))
+            return
+    final = tr.get("stats")
+    if final is not None and merges[0]["before"] == []:
+        if answers[-1].get("merged") != as_pairs(list(final.items())):
+            ctx.corr_break(layer + ":merge_stats-fold", {"batches": [m["new"] for m in merges]}, answers[-1].get("merged"),
+                           as_pairs(list(final.items())))
 
 
 def monitor_laws(ctx, bt, ans):
